@@ -9,6 +9,8 @@ type propCfg struct {
 	ThoroughRuns     int
 	ThoroughBudgetS  int
 	OnePerProcess    bool
+	Enumerate        bool // exhaustive walk of the decision tree instead of seeded sampling
+	EnumWorkers      int
 	WatchdogSlackS   int
 	DetSeedsQuick    int
 	DetSeedsThorough int
@@ -60,6 +62,19 @@ var props = map[string]*propCfg{
 		Assumptions: append([]string{
 			"every leaf receives a status during the first round (as deployment does); the statement does not define the fold over never-reported (UNDEFINED) statuses",
 			"each leaf is updated by one goroutine at a time (updates to different tasks are concurrent)",
+		}, commonAssumptions...),
+	},
+	"C16": {
+		Harness: "hdev", Level: "fault_enumeration", Enumerate: true, EnumWorkers: 6,
+		QuickRuns: 50000000, QuickBudgetS: 120, ThoroughRuns: 50000000, ThoroughBudgetS: 1200,
+		WatchdogSlackS: 120, DetSeedsQuick: 10, DetSeedsThorough: 50,
+		Rule: "complete depth-first enumeration of the decision tree: transition (CONFIGURE, START, STOP, RESET, EXIT from STANDBY, EXIT from CONFIGURED) x control mode (FairMQ, direct) x real device state at the time of the request (the believed one or another stable state) x outcome of every device step issued (done, refused in place, ends in ERROR, request lost, reply lost after the step was done, wrong event echoed, trigger not EXECUTOR); one leaf = one execution of the real Transitioner.Commit + RpcClient.doTransition; non-trivial = at least one device step; distinct = distinct leaves",
+		Real:    []string{"executor/executorcmd/transitioner: FairMQ.Commit/doConfigure/doReset, Direct.Commit, state maps", "executor/executorcmd.RpcClient.doTransition (reply acceptance rule)"},
+		Stub:    []string{"the device: reference FairMQ state machine (stable states, from the FairMQ documentation) / O2 state machine for direct control, implementing pb.OccClient (hook NewClientForVerif)"},
+		Assumptions: append([]string{
+			"a device refuses (ok=false, state unchanged) an event that is not valid in its current state",
+			"RESET DEVICE is accepted from INITIALIZED, BOUND and DEVICE READY only; INIT TASK from DEVICE READY only (FairMQ state machine)",
+			"the rollback clause is asserted when exactly one step was refused in place at an intermediate state and every other step succeeded",
 		}, commonAssumptions...),
 	},
 }
